@@ -1,5 +1,6 @@
 import Orca.Gen.RefTables
 import Orca.Lemmas.Ops
+import Orca.Lemmas.Preserve
 /-!
 # C07 — global references stay bound to the same global across edits
 Shares the index-space theorems of C06 (`Orca.Edit.encode_spec`); this file adds the global-specific parts:
@@ -51,5 +52,16 @@ theorem c07_added_global_ids (s : St) (uid : Nat) (sites : List Ref) :
 /-- regression for F10: an iterator-added global followed by an imported global -/
 example : let s0 : St := { g := { items := [⟨0, false, false, 7, 0⟩] } }
     ((addImportedGlobal (iterAddGlobal s0 8 []).1 9).2 matches Ret.id2 2 0) = true := by decide
+
+/-- `c07_global_refs` after **any** history of edits on a parsed module (the state invariant is inductive:
+    `stInv_step`, Lemmas/Preserve.lean) -/
+theorem c07_global_refs_after_any_history (s0 : St) (h0 : StInv s0) (ops : List Op) (hn : NoEncode ops) :
+    let s := (run s0 ops).1
+    (∃ s' F G M res st, encode s = (s', Ret.encoded F G M res st)
+        ∧ (∀ r' ∈ res, r'.sp = Sp.G → ∃ r ∈ allRefs s, r'.site = r.site ∧ r.sp = Sp.G
+            ∧ ∃ u, PointsTo s r u ∧ G[r'.idx]? = some u))
+    ∨ (∃ s' why, encode s = (s', Ret.panic why) ∧ ∃ r ∈ allRefs s, Dangling s r) :=
+  let h := spaceInv_after s0 h0 ops hn
+  c07_global_refs _ h.1 h.2.1 h.2.2
 
 end Orca.Edit
